@@ -31,17 +31,17 @@ type inputWorld struct {
 	queries []queryPlan
 	qsize   int
 
-	vx       *vaxis.Vaxis
-	events   []gotEvent
-	lastSent bool
-	done     bool
-	typed    bool
-	sentAt   []time.Duration // when each segment's last byte was handed to the wire
-	qres     []string
-	lateCPR  int
+	vx           *vaxis.Vaxis
+	events       []gotEvent
+	lastSent     bool
+	done         bool
+	typed        bool
+	sentAt       []time.Duration // when each segment's last byte was handed to the wire
+	qres         []string
+	lateCPR      int
 	queriersLeft int
-	pollStop bool
-	known    map[string]bool
+	pollStop     bool
+	known        map[string]bool
 }
 
 // isInternalEvent: an event whose type the application cannot even name.
